@@ -119,12 +119,17 @@ type Corruption struct {
 
 // ByzKinds lists the corruption kinds per RPC.
 var ByzKinds = map[string][]string{
-	"headers":       {"break-link", "low-work", "timestamp-past", "extra-remaining", "empty-with-remaining", "duplicate", "wrong-type", "garbage", "close"},
-	"blocks":        {"other-branch", "body-swap", "drop-txns", "too-few", "too-many", "reorder", "wrong-type", "garbage", "close", "foreign-last", "body-swap+hangup", "drop-txns+hangup", "too-few-not-last", "empty-not-last"},
-	"checkpoint":    {"non-v2", "wrong-id", "state-field", "state-work", "recommit", "wrong-type", "garbage", "close", "two-payouts", "payout-value", "v2-height"},
-	"relay-header":  {"low-work", "unknown-parent"},
-	"relay-outline": {"low-work", "invalid-child", "wrong-missing", "no-missing", "txn-altered", "unknown-parent"},
-	"relay-txset":   {"empty", "unknown-basis", "invalid"},
+	"headers":    {"break-link", "low-work", "timestamp-past", "extra-remaining", "empty-with-remaining", "duplicate", "wrong-type", "garbage", "close"},
+	"blocks":     {"other-branch", "body-swap", "drop-txns", "too-few", "too-many", "reorder", "wrong-type", "garbage", "close", "foreign-last", "body-swap+hangup", "drop-txns+hangup", "too-few-not-last", "empty-not-last"},
+	"checkpoint": {"non-v2", "wrong-id", "state-field", "state-work", "recommit", "wrong-type", "garbage", "close", "two-payouts", "payout-value", "v2-height"},
+	// hostile-*: announcements that attach to the receiver's tip, meet the
+	// proof-of-work target where one applies, and carry extreme constants
+	// (MaxCurrency fees and outputs, MaxUint64 heights / sizes / leaf indices,
+	// out-of-range timestamps, over-long proofs) in the fields a handler computes
+	// on before anything was validated; the variant is selected by Arg
+	"relay-header":  {"low-work", "unknown-parent", "hostile-timestamp"},
+	"relay-outline": {"low-work", "invalid-child", "wrong-missing", "no-missing", "txn-altered", "unknown-parent", "hostile-embedded", "hostile-missing", "hostile-field"},
+	"relay-txset":   {"empty", "unknown-basis", "invalid", "hostile-txn", "hostile-basis"},
 }
 
 // ByzPeer is a scripted gateway peer that serves a claimed chain and applies
@@ -137,9 +142,11 @@ type ByzPeer struct {
 	Alt Chain
 
 	mu       sync.Mutex
-	seen     map[string]int // RPCs the remote issued
-	applied  map[string]int // corrupted payloads actually delivered (differing from the honest answer)
-	served   map[string]int // honest payloads delivered
+	extraV1  []types.Transaction   // transactions served by SendTransactions on top of the chain's
+	extraV2  []types.V2Transaction // (the "missing" transactions of a hostile outline)
+	seen     map[string]int        // RPCs the remote issued
+	applied  map[string]int        // corrupted payloads actually delivered (differing from the honest answer)
+	served   map[string]int        // honest payloads delivered
 	offered  map[types.BlockID]bool
 	relayErr []string
 	sameIDAt time.Time // when the first same-id invalid body went out
@@ -151,6 +158,15 @@ func (b *ByzPeer) SameIDAt() time.Time {
 	b.mu.Lock()
 	defer b.mu.Unlock()
 	return b.sameIDAt
+}
+
+// OfferTxns makes SendTransactions serve the given transactions whenever
+// their hashes are asked for.
+func (b *ByzPeer) OfferTxns(v1 []types.Transaction, v2 []types.V2Transaction) {
+	b.mu.Lock()
+	defer b.mu.Unlock()
+	b.extraV1 = append(b.extraV1, v1...)
+	b.extraV2 = append(b.extraV2, v2...)
 }
 
 // NewByzPeer creates the peer (not yet listening).
@@ -508,6 +524,25 @@ func (b *ByzPeer) Handle(id types.Specifier, s *gateway.Stream) {
 			if want[txn.MerkleLeafHash()] {
 				r.V2Transactions = append(r.V2Transactions, txn)
 			}
+		}
+		b.mu.Lock()
+		ev1, ev2 := append([]types.Transaction(nil), b.extraV1...), append([]types.V2Transaction(nil), b.extraV2...)
+		b.mu.Unlock()
+		extra := false
+		for _, txn := range ev1 {
+			if h := txn.MerkleLeafHash(); want[h] {
+				r.Transactions, extra = append(r.Transactions, txn), true
+				delete(want, h)
+			}
+		}
+		for _, txn := range ev2 {
+			if h := txn.MerkleLeafHash(); want[h] {
+				r.V2Transactions, extra = append(r.V2Transactions, txn), true
+				delete(want, h)
+			}
+		}
+		if extra {
+			b.count(b.applied, "txns")
 		}
 		if b.Corr.RPC == "relay-outline" && b.Corr.Kind == "wrong-missing" {
 			r.Transactions = nil
